@@ -220,6 +220,16 @@ func runC03(c *core.Ctx) {
 			} else {
 				c.OK(key+"#newdecoder-options", p.Pos(newDec.Pos()), fmt.Sprintf("cbor.NewDecoder receives an options value built in %d local(s) of the decoder", len(opts)))
 				relaxedTrue := core.BoolEdgesWhere(dec, func(v ssa.Value) bool { return core.IsFieldRef(v, "DecodeOptions", "RelaxedDecode") }, true)
+				// strictValue: the value is `!cfg.RelaxedDecode` (possibly kept in a variable): true exactly on the paths
+				// that matter for the three flags that relaxed mode lifts
+				strictValue := func(v ssa.Value) bool {
+					w, neg := core.CondPolarity(v)
+					if !neg {
+						return false
+					}
+					return core.IsFieldRef(w, "DecodeOptions", "RelaxedDecode") || core.IsFieldRef(rg.Canon(w), "DecodeOptions", "RelaxedDecode")
+				}
+				relaxable := map[string]bool{"RejectNonMinimalInteger": true, "RejectNaN": true, "RejectInfinity": true}
 				storeTrue := func(field string) func(ssa.Instruction) bool {
 					return func(in ssa.Instruction) bool {
 						st, ok := in.(*ssa.Store)
@@ -229,6 +239,9 @@ func runC03(c *core.Ctx) {
 						fa, ok := st.Addr.(*ssa.FieldAddr)
 						if !ok || !opts[fa.X] || core.FieldName(fa) != "DecodeOptions."+field {
 							return false
+						}
+						if relaxable[field] && strictValue(st.Val) {
+							return true
 						}
 						b, isB := core.ConstBool(st.Val)
 						return isB && b
@@ -254,6 +267,9 @@ func runC03(c *core.Ctx) {
 					}
 					fname := core.FieldName(fa)
 					if strings.HasPrefix(fname, "DecodeOptions.Reject") || fname == "DecodeOptions.CoerceUndefToNull" {
+						if relaxable[strings.TrimPrefix(fname, "DecodeOptions.")] && strictValue(st.Val) {
+							return
+						}
 						if b, isB := core.ConstBool(st.Val); !isB || !b {
 							c.Fail(key+"#store-"+fname, p.Pos(st.Pos()), "a strictness flag is assigned something other than constant true")
 						}
